@@ -2,6 +2,7 @@ package main
 
 import (
 	"encoding/json"
+	"errors"
 	"flag"
 	"fmt"
 	"io"
@@ -35,6 +36,8 @@ type depthCase struct {
 }
 
 func init() { commands["replay-depth"] = replayDepth }
+
+var errEnoughHangs = errors.New("enough non-terminating queries")
 
 func (c *depthCase) direct() *network.Network {
 	nodes := map[int]*network.NNode{}
@@ -162,6 +165,7 @@ func replayDepth(args []string) int {
 	_ = fs.Parse(args)
 	rep := &report{Command: "replay-depth"}
 	differ := 0
+	hangs := 0
 	err := readNDJSON(*cases, func(line []byte) error {
 		var c depthCase
 		if err := json.Unmarshal(line, &c); err != nil {
@@ -214,6 +218,9 @@ func replayDepth(args []string) int {
 			case <-time.After(5 * time.Second):
 				rep.fail(map[string]interface{}{"case": json.RawMessage(append([]byte(nil), line...)),
 					"what": "uncapped depth query on a fresh network did not terminate within 5s", "signature": "depth " + string(line)})
+				if hangs++; hangs >= 3 {
+					return errEnoughHangs
+				}
 				return nil
 			}
 		}
@@ -283,6 +290,7 @@ func replayDepth(args []string) int {
 			case <-done:
 			case <-time.After(5 * time.Second):
 				bad += "depth query did not terminate within 5s; "
+				hangs++
 			}
 			if bad != "" {
 				rep.fail(map[string]interface{}{"case": json.RawMessage(append([]byte(nil), line...)),
@@ -292,8 +300,16 @@ func replayDepth(args []string) int {
 		if hitCap && !c.Acyclic {
 			rep.sample(json.RawMessage(append([]byte(nil), line...)))
 		}
+		if hangs >= 3 {
+			return errEnoughHangs
+		}
 		return nil
 	})
+	if err == errEnoughHangs {
+		// every query that does not return leaves a goroutine spinning for good: three reported cases of non-termination are a
+		// verdict ("always terminates"), the rest of the cases is not replayed
+		err = nil
+	}
 	if err != nil {
 		fmt.Println("vh replay-depth:", err)
 		return 2
